@@ -82,7 +82,8 @@ def run(ctx):
             s = g[: rng.randrange(0, len(g))]                       # truncation at any cut
         elif k == 1:
             p = rng.randrange(3, len(g))
-            s = g[:p] + rng.choice("!_ $\né\\*Az") + g[p + 1:]      # wrong / changed character
+            # wrong / changed character: ASCII punctuation, Latin-1, and characters that Unicode-aware classes (\d, \w, isalnum) take for digits or letters
+            s = g[:p] + rng.choice("!_ $\né\\*Az" + "٣３௧۵ªßΩ") + g[p + 1:]
         elif k == 2:
             s = g + rng.choice(["\n", " ", "\r\n", "\n\n", "Q", "$"])
         elif k == 3:
